@@ -33,6 +33,7 @@ static inline const std::vector<Bytes>& leaves_full() {
   L.push_back(B({0x59, 0x00, 0x02, 0x01, 0x02})); L.push_back(B({0x5a, 0, 0, 0, 1, 0xff})); L.push_back(B({0x5b, 0, 0, 0, 0, 0, 0, 0, 0}));
   L.push_back(cat(B({0x57}), rep(0x42, 23))); L.push_back(cat(B({0x58, 24}), rep(0x43, 24)));
   // text strings (valid, multibyte, invalid UTF-8)
+  L.push_back(B({0x63, 'a', 0x00, 'b'}));   // embedded NUL
   L.push_back(B({0x60})); L.push_back(B({0x61, 'a'})); L.push_back(B({0x62, 0xc3, 0xa9})); L.push_back(B({0x61, 0xff}));
   L.push_back(B({0x78, 0x00})); L.push_back(B({0x78, 0x02, 'h', 'i'})); L.push_back(B({0x79, 0x00, 0x01, 'z'}));
   L.push_back(B({0x7a, 0, 0, 0, 3, 0xe2, 0x82, 0xac})); L.push_back(B({0x7b, 0, 0, 0, 0, 0, 0, 0, 1, 'q'}));
@@ -40,6 +41,7 @@ static inline const std::vector<Bytes>& leaves_full() {
   L.push_back(B({0xf4})); L.push_back(B({0xf5})); L.push_back(B({0xf6})); L.push_back(B({0xf7}));
   L.push_back(B({0xf9, 0x00, 0x00})); L.push_back(B({0xf9, 0x7c, 0x00})); L.push_back(B({0xf9, 0x7e, 0x00})); L.push_back(B({0xf9, 0x00, 0x01})); L.push_back(B({0xf9, 0xc0, 0x00}));
   L.push_back(B({0xfa, 0x3f, 0x80, 0x00, 0x00})); L.push_back(B({0xfa, 0x7f, 0xc0, 0x00, 0x00})); L.push_back(B({0xfa, 0x7f, 0x80, 0x00, 0x01})); L.push_back(B({0xfa, 0x80, 0, 0, 0}));
+  L.push_back(B({0xf9, 0x03, 0xff})); L.push_back(B({0xfa, 0x00, 0x00, 0x00, 0x01})); L.push_back(B({0xfa, 0x80, 0x7f, 0xff, 0xff})); L.push_back(B({0xfb, 0, 0, 0, 0, 0, 0, 0, 1}));   // subnormals of every width
   L.push_back(B({0xfb, 0x3f, 0xf0, 0, 0, 0, 0, 0, 0})); L.push_back(B({0xfb, 0x7f, 0xf8, 0, 0, 0, 0, 0, 0})); L.push_back(B({0xfb, 0xff, 0xf0, 0, 0, 0, 0, 0, 1}));
   // empty containers in every head width, empty indefinite containers
   L.push_back(B({0x80})); L.push_back(B({0x98, 0x00})); L.push_back(B({0x99, 0x00, 0x00})); L.push_back(B({0x9a, 0, 0, 0, 0})); L.push_back(B({0x9b, 0, 0, 0, 0, 0, 0, 0, 0}));
